@@ -32,7 +32,11 @@ def load(f):
     key = getattr(f, "path", id(f))
     if key in _cache:
         return _cache[key]
-    g = gramfacts.extract(f.parser_src)
+    try:
+        g = gramfacts.extract(f.parser_src)
+    except gramfacts.GrammarError as e:
+        from framework import Inconclusive
+        raise Inconclusive("the generated parser does not have the table-driven shape the extraction reads (%s)" % e)
     prods = []
     for (lhs, rhs), a in sorted(g["productions"].items(), key=lambda x: x[1]):
         prods.append({"lhs": lhs, "rhs": list(rhs), "action": a, "term": action_term(f, a, len(rhs))})
